@@ -160,3 +160,212 @@ theorem session_adds_exactly (H : SList → Nat) (B fuel : Nat) (hfuel : B < fue
       exact ⟨w, ⟨hw, rfl⟩, hsh⟩
 
 end Sedpack.Tree
+
+namespace Sedpack.Tree
+
+/-! ### no shard is enumerated twice -/
+
+/-- the directories the depth-first walk visits, in visiting order -/
+def dirsOf : (fuel : Nat) → FS → Dir → List Dir
+  | 0, _, _ => []
+  | fuel+1, fs, d =>
+    match fs d with
+    | none => []
+    | some l => d :: l.kids.flatMap (fun c => dirsOf fuel fs c.dir)
+
+theorem shardsOf_eq_flatMap : ∀ (fuel : Nat) (fs : FS) (d : Dir),
+    shardsOf fuel fs d = (dirsOf fuel fs d).flatMap (filesAt fs) := by
+  intro fuel
+  induction fuel with
+  | zero => intro fs d; simp [shardsOf, dirsOf]
+  | succ fuel ih =>
+    intro fs d
+    simp only [shardsOf, dirsOf]
+    cases hfd : fs d with
+    | none => simp
+    | some l =>
+      simp only [List.flatMap_cons]
+      congr 1
+      · simp [filesAt, hfd]
+      · have key : ∀ ks : List Kid, ks.flatMap (fun c => shardsOf fuel fs c.dir) =
+            (ks.flatMap (fun c => dirsOf fuel fs c.dir)).flatMap (filesAt fs) := by
+          intro ks
+          induction ks with
+          | nil => simp
+          | cons c cs ihk => simp only [List.flatMap_cons, List.flatMap_append, ihk, ih fs c.dir]
+        exact key l.kids
+
+theorem dirsOf_prefix (hwf : WF fs) : ∀ (fuel : Nat) (d x : Dir), x ∈ dirsOf fuel fs d → d <+: x := by
+  intro fuel
+  induction fuel with
+  | zero => intro d x h; simp [dirsOf] at h
+  | succ fuel ih =>
+    intro d x h
+    simp only [dirsOf] at h
+    cases hfd : fs d with
+    | none => simp [hfd] at h
+    | some l =>
+      simp only [hfd, List.mem_cons, List.mem_flatMap] at h
+      rcases h with h | ⟨c, hc, hx⟩
+      · subst h; exact List.prefix_refl _
+      · obtain ⟨y, hy⟩ := (hwf d l hfd).shape c hc
+        exact prefix_trans' (by rw [hy]; exact List.prefix_append _ _) (ih c.dir x hx)
+
+/-- the walk visits no directory twice (the child records of a list name distinct directories one level below it, so
+their sub-trees are disjoint) -/
+theorem dirsOf_nodup (hwf : WF fs) : ∀ (fuel : Nat) (d : Dir), (dirsOf fuel fs d).Nodup := by
+  intro fuel
+  induction fuel with
+  | zero => intro d; simp [dirsOf]
+  | succ fuel ih =>
+    intro d
+    simp only [dirsOf]
+    cases hfd : fs d with
+    | none => simp
+    | some l =>
+      have hw := hwf d l hfd
+      simp only [List.nodup_cons, List.mem_flatMap, not_exists, not_and]
+      refine ⟨?_, ?_⟩
+      · intro c hc hd
+        obtain ⟨y, hy⟩ := hw.shape c hc
+        have := dirsOf_prefix hwf fuel c.dir d hd
+        rw [hy] at this
+        exact not_prefix_of_longer (by simp) this
+      · -- the children's walks are pairwise disjoint and each is duplicate-free
+        have key : ∀ (ks : List Kid), (∀ c ∈ ks, ∃ y, c.dir = d ++ [y]) → (ks.map (·.dir)).Nodup →
+            (ks.flatMap (fun c => dirsOf fuel fs c.dir)).Nodup := by
+          intro ks
+          induction ks with
+          | nil => intro _ _; simp
+          | cons c cs ihk =>
+            intro hsh hnd
+            simp only [List.map_cons, List.nodup_cons] at hnd
+            simp only [List.flatMap_cons]
+            rw [List.nodup_append]
+            refine ⟨ih c.dir, ihk (fun c' hc' => hsh c' (List.mem_cons_of_mem _ hc')) hnd.2, ?_⟩
+            intro a ha b hb hab
+            subst hab
+            simp only [List.mem_flatMap] at hb
+            obtain ⟨c', hc', hb'⟩ := hb
+            obtain ⟨y, hy⟩ := hsh c List.mem_cons_self
+            obtain ⟨y', hy'⟩ := hsh c' (List.mem_cons_of_mem _ hc')
+            have h1 := dirsOf_prefix hwf fuel c.dir a ha
+            have h2 := dirsOf_prefix hwf fuel c'.dir a hb'
+            rw [hy] at h1; rw [hy'] at h2
+            by_cases hyy : y = y'
+            · apply hnd.1
+              rw [hy, hyy, ← hy']
+              exact List.mem_map.mpr ⟨c', hc', rfl⟩
+            · exact prefix_snoc_ne hyy h1 h2
+        exact key l.kids hw.shape hw.nodup
+
+/-- **No shard file is listed twice.** If the names of all shard files recorded anywhere in the store are pairwise
+distinct (shard files get fresh names), then no name is enumerated twice. -/
+theorem shardsOf_names_nodup (hwf : WF fs) (fuel : Nat) (d : Dir)
+    (hdist : ∀ x y (s t : Shard), s ∈ filesAt fs x → t ∈ filesAt fs y → s.file = t.file → x = y)
+    (hlocal : ∀ x, ((filesAt fs x).map (·.file)).Nodup) :
+    ((shardsOf fuel fs d).map (·.file)).Nodup := by
+  rw [shardsOf_eq_flatMap]
+  have hnd := dirsOf_nodup hwf fuel d
+  generalize dirsOf fuel fs d = ds at hnd
+  induction ds with
+  | nil => simp
+  | cons x xs ih =>
+    simp only [List.nodup_cons] at hnd
+    simp only [List.flatMap_cons, List.map_append]
+    rw [List.nodup_append]
+    refine ⟨hlocal x, ih hnd.2, ?_⟩
+    intro a ha b hb hab
+    subst hab
+    simp only [List.mem_map] at ha hb
+    obtain ⟨s, hs, hsa⟩ := ha
+    obtain ⟨t, ht, hta⟩ := hb
+    simp only [List.mem_flatMap] at ht
+    obtain ⟨y, hy, hty⟩ := ht
+    have := hdist x y s t hs hty (by rw [hsa, hta])
+    exact hnd.1 (this ▸ hy)
+
+end Sedpack.Tree
+
+namespace Sedpack.Tree
+
+/-- shard file names are distinct within every list and across lists -/
+structure NamesOK (fs : FS) : Prop where
+  dist : ∀ x y (s t : Shard), s ∈ filesAt fs x → t ∈ filesAt fs y → s.file = t.file → x = y
+  loc : ∀ x, ((filesAt fs x).map (·.file)).Nodup
+
+/-- the shards a session closes carry names that are new and pairwise distinct (uuid4) -/
+structure FreshSession (fs : FS) (se : Session) : Prop where
+  unused : ∀ w ∈ se, ∀ s ∈ w.2, ∀ x, ∀ t ∈ filesAt fs x, s.file ≠ t.file
+  distinct : ((se.flatMap (·.2)).map (·.file)).Nodup
+
+theorem newAt_sublist (se : Session) (x : Dir) : (newAt se x).Sublist (se.flatMap (·.2)) := by
+  induction se with
+  | nil => simp [newAt]
+  | cons w ws ih =>
+    simp only [newAt, List.filter_cons, List.flatMap_cons]
+    split
+    · simp only [List.flatMap_cons]
+      exact List.Sublist.append (List.Sublist.refl _) (by simpa [newAt] using ih)
+    · exact List.Sublist.trans (by simpa [newAt] using ih) (List.sublist_append_right _ _)
+
+theorem mem_newAt {se : Session} {x : Dir} {s : Shard} : s ∈ newAt se x ↔ ∃ w ∈ se, w.1 = x ∧ s ∈ w.2 := by
+  simp only [newAt, List.mem_flatMap, List.mem_filter, decide_eq_true_eq]
+  constructor
+  · rintro ⟨w, ⟨hw, hwx⟩, hs⟩; exact ⟨w, hw, hwx, hs⟩
+  · rintro ⟨w, hw, hwx, hs⟩; exact ⟨w, ⟨hw, hwx⟩, hs⟩
+
+/-- in a duplicate-free concatenation an element name identifies the entry it came from -/
+theorem entry_of_name : ∀ (se : Session), ((se.flatMap (·.2)).map (·.file)).Nodup →
+    ∀ w ∈ se, ∀ w' ∈ se, ∀ s ∈ w.2, ∀ t ∈ w'.2, s.file = t.file → w.1 = w'.1 := by
+  intro se
+  induction se with
+  | nil => intro _ w hw; simp at hw
+  | cons a as ih =>
+    intro hnd w hw w' hw' s hs t ht hst
+    simp only [List.flatMap_cons, List.map_append] at hnd
+    rw [List.nodup_append] at hnd
+    obtain ⟨_, h2, h3⟩ := hnd
+    simp only [List.mem_cons] at hw hw'
+    have inrest : ∀ (v : Dir × List Shard) (u : Shard), v ∈ as → u ∈ v.2 → u.file ∈ (as.flatMap (·.2)).map (·.file) :=
+      fun v u hv hu => List.mem_map.mpr ⟨u, List.mem_flatMap.mpr ⟨v, hv, hu⟩, rfl⟩
+    rcases hw with rfl | hw <;> rcases hw' with rfl | hw'
+    · rfl
+    · exact absurd hst (fun h => h3 s.file (List.mem_map.mpr ⟨s, hs, rfl⟩) t.file (inrest w' t hw' ht) h)
+    · exact absurd hst.symm (fun h => h3 t.file (List.mem_map.mpr ⟨t, ht, rfl⟩) s.file (inrest w s hw hs) h)
+    · exact ih h2 w hw w' hw' s hs t ht hst
+
+/-- appending the freshly named shards of a session keeps all names distinct -/
+theorem namesOK_applyWrites (fs : FS) (se : Session) (hn : NamesOK fs) (hf : FreshSession fs se) : NamesOK (applyWrites fs se) := by
+  constructor
+  · intro x y s t hs ht hst
+    rw [applyWrites_files] at hs ht
+    rcases List.mem_append.mp hs with hs | hs <;> rcases List.mem_append.mp ht with ht | ht
+    · exact hn.dist x y s t hs ht hst
+    · obtain ⟨w, hw, _, htw⟩ := mem_newAt.mp ht
+      exact absurd hst.symm (hf.unused w hw t htw x s hs)
+    · obtain ⟨w, hw, _, hsw⟩ := mem_newAt.mp hs
+      exact absurd hst (hf.unused w hw s hsw y t ht)
+    · obtain ⟨w, hw, hwx, hsw⟩ := mem_newAt.mp hs
+      obtain ⟨w', hw', hwy, htw⟩ := mem_newAt.mp ht
+      rw [← hwx, ← hwy]
+      exact entry_of_name se hf.distinct w hw w' hw' s hsw t htw hst
+  · intro x
+    rw [applyWrites_files, List.map_append, List.nodup_append]
+    refine ⟨hn.loc x, ((newAt_sublist se x).map _).nodup hf.distinct, ?_⟩
+    intro a ha b hb hab
+    subst hab
+    obtain ⟨s, hs, rfl⟩ := List.mem_map.mp ha
+    obtain ⟨t, ht, hts⟩ := List.mem_map.mp hb
+    obtain ⟨w, hw, _, htw⟩ := mem_newAt.mp ht
+    exact hf.unused w hw t htw x s hs hts
+
+/-- a completed session with freshly named shards keeps all names distinct (the merge never touches shard entries) -/
+theorem session_namesOK (H : SList → Nat) (B fuel : Nat) (hfuel : B < fuel + 1) (hB : 1 ≤ B) (ds : DS) (se : Session)
+    (hse : ∀ w ∈ se, w.1 ≠ [] ∧ w.1.length ≤ B) (hg : Good H B ds) (hn : NamesOK ds.fs) (hf : FreshSession ds.fs se) :
+    NamesOK (session H fuel ds se).fs := by
+  obtain ⟨_, _, _, hfiles, _⟩ := session_good H B fuel hfuel hB ds se hse hg
+  have h := namesOK_applyWrites ds.fs se hn hf
+  exact ⟨fun x y s t hs ht => h.dist x y s t (by rwa [← hfiles x]) (by rwa [← hfiles y]), fun x => by rw [hfiles x]; exact h.loc x⟩
+
+end Sedpack.Tree
